@@ -3,7 +3,7 @@
    definitions are REGENERATED from /repo's working tree (Gen/TimespanGen.v) on every run, so these
    theorems are re-checked against what the code says now. *)
 From Coq Require Import ZArith List Bool.
-From V Require Import Base.Tri Gen.TimespanGen Model.Timespan Proofs.TimespanProofs.
+From V Require Import Base.Tri Gen.TimespanGen Model.Timespan Proofs.TimespanProofs Proofs.TimespanProofsAlg.
 Import ListNotations.
 Open Scope Z_scope.
 
@@ -85,6 +85,72 @@ Print Assumptions eq_is_set_equality.
 Theorem eq_method_spec : forall a b, py_eq a b = true <-> a = b.
 Proof. exact py_eq_spec_p. Qed.
 Print Assumptions eq_method_spec.
+
+(* Algebraic laws of the relations (derived from the set-level characterisations above, so they
+   re-prove after any rewrite of the code that keeps those): what a caller reasoning about
+   validity ranges relies on without ever looking at endpoints. *)
+Theorem overlaps_symmetric : forall a b, wf a -> wf b -> py_overlaps a b = py_overlaps b a.
+Proof. exact overlaps_sym_p. Qed.
+Print Assumptions overlaps_symmetric.
+
+Theorem lt_gt_dual : forall a b, wf a -> wf b -> py_lt a b = py_gt b a.
+Proof. exact lt_gt_dual_p. Qed.
+Print Assumptions lt_gt_dual.
+
+Theorem lt_strict_order : forall a b c, wf a -> wf b -> wf c ->
+  py_lt a a = false
+  /\ (py_lt a b = true -> py_lt b a = false)
+  /\ (py_lt a b = true -> py_lt b c = true -> py_lt a c = true).
+Proof.
+  intros a b c Ha Hb Hc; split; [ exact (lt_irrefl_p a Ha) | split ];
+    [ exact (lt_asym_p a b Ha Hb) | exact (lt_trans_p a b c Ha Hb Hc) ].
+Qed.
+Print Assumptions lt_strict_order.
+
+Theorem contains_partial_order : forall a b c, wf a -> wf b -> wf c ->
+  py_contains a a = true
+  /\ (py_contains a b = true -> py_contains b a = true -> a = b)
+  /\ (py_contains a b = true -> py_contains b c = true -> py_contains a c = true).
+Proof.
+  intros a b c Ha Hb Hc; split; [ exact (contains_refl_p a Ha) | split ];
+    [ exact (contains_antisym_p a b Ha Hb) | exact (contains_trans_p a b c Ha Hb Hc) ].
+Qed.
+Print Assumptions contains_partial_order.
+
+Theorem contains_nonempty_overlaps : forall a b, wf a -> wf b -> nonempty b ->
+  py_contains a b = true -> py_overlaps a b = true.
+Proof. exact contains_nonempty_overlaps_p. Qed.
+Print Assumptions contains_nonempty_overlaps.
+
+(* the empty span overlaps nothing, is before / after nothing, and is contained in everything *)
+Theorem empty_relations : forall a b, wf a -> wf b -> py_isEmpty a = true ->
+  py_overlaps a b = false /\ py_overlaps b a = false
+  /\ py_lt a b = false /\ py_gt a b = false /\ py_contains b a = true.
+Proof. exact empty_overlaps_nothing_p. Qed.
+Print Assumptions empty_relations.
+
+(* two non-empty spans are in EXACTLY one of: before, after, overlapping *)
+Theorem relation_trichotomy : forall a b, wf a -> wf b -> nonempty a -> nonempty b ->
+  (py_lt a b = true /\ py_gt a b = false /\ py_overlaps a b = false)
+  \/ (py_lt a b = false /\ py_gt a b = true /\ py_overlaps a b = false)
+  \/ (py_lt a b = false /\ py_gt a b = false /\ py_overlaps a b = true).
+Proof. exact trichotomy_p. Qed.
+Print Assumptions relation_trichotomy.
+
+Theorem overlaps_iff_intersection_nonempty : forall a b, wf a -> wf b ->
+  (py_overlaps a b = true <-> nonempty (inter GEN_MAX a [b])).
+Proof. exact overlaps_iff_inter_nonempty_p. Qed.
+Print Assumptions overlaps_iff_intersection_nonempty.
+
+(* non-vacuity of the algebraic laws: concrete well-formed non-empty spans in each relation *)
+Example relation_examples :
+  wf (0, 10) /\ wf (10, 20) /\ wf (5, 15) /\ nonempty (0, 10) /\ nonempty (10, 20)
+  /\ py_lt (0, 10) (10, 20) = true /\ py_gt (10, 20) (0, 10) = true
+  /\ py_overlaps (0, 10) (5, 15) = true /\ py_contains (0, 10) (5, 15) = false.
+Proof.
+  repeat split; try (left; cbv; repeat split; congruence); try (exists 5; cbv; split; congruence);
+    try (exists 15; cbv; split; congruence); reflexivity.
+Qed.
 
 (* SQL form = Python form on non-NULL operands *)
 Theorem sql_agrees_isEmpty : forall a, sql_isEmpty (lit a) = tri_of_bool (py_isEmpty a).
